@@ -67,7 +67,7 @@ Qed.
 Theorem ty_eqb_eq : forall a b, ty_eqb a b = true <-> a = b.
 Proof. intros a b; split; [apply ty_eqb_sound | intros ->; apply ty_eqb_refl]. Qed.
 
-Definition ty_eq_dec : forall a b : ty, {a = b} + {a <> b}.
+Lemma ty_eq_dec : forall a b : ty, {a = b} + {a <> b}.
 Proof.
   intros a b. destruct (ty_eqb a b) eqn:E.
   - left; apply ty_eqb_eq; exact E.
